@@ -258,7 +258,7 @@ class Frames(Suite):
             "non-trivial = >= 2 packets, distinct")
 
     def gen(self, rng, tier):
-        n = {"quick": 400, "thorough": 20000, "search": 100}[tier]
+        n = {"quick": 1000, "thorough": 20000, "search": 100}[tier]
         ops = []
         # every encoded packet size around the pooled 32 KiB buffer (header bytes included): a deterministic sweep
         if tier != "search":
